@@ -974,42 +974,3 @@ func (r *rngState) next() uint64 {
 	s[3] = rotl(s[3], 45)
 	return res
 }
-
-// forceGC is the garbage-collection fault: at a seeded step the current task
-// forces a collection and waits until every finalizer / cleanup queued by it
-// has run. Their code executes on the runtime's finalizer goroutine while all
-// tasks stand still (yield points are inert meanwhile), so the execution stays
-// a function of the seed; the race detector still sees their accesses as
-// concurrent with the tasks', as they are in a real process.
-func forceGC() {
-	setGCPause(true)
-	DrainFinalizers()
-	setGCPause(false)
-}
-
-//go:norace
-func setGCPause(b bool) {
-	gcPause = b
-	if b {
-		stats.ForcedGCs++
-	}
-}
-
-// DrainFinalizers collects garbage and returns after all finalizers that were
-// runnable have finished.
-func DrainFinalizers() {
-	runtime.GC()
-	done := make(chan struct{})
-	s := new([16]byte)
-	runtime.SetFinalizer(s, func(*[16]byte) { close(done) })
-	s = nil
-	for i := 0; i < 50; i++ {
-		runtime.GC()
-		select {
-		case <-done:
-			return
-		default:
-			runtime.Gosched()
-		}
-	}
-}
